@@ -19,6 +19,35 @@ SAFE_ELEMS = sorted(e for e in REF_ELEMS if e not in ("noscript", "textarea", "t
 TEXTS = ["text", "a &amp; b", "x &lt; y", "&copy; 2004", "&#169;", "&#x20AC;", "café", "中文", "1 &gt; 0", "tab\there", " spaced ", "&quot;q&quot;", "&apos;", "&nbsp;", "line\nbreak", "&#128;"]
 VALS = ["x", "a b", "a&amp;b", "http://example.org/a?b=1&amp;c=2", "café", "it's", "100%", "#top", "a,b;c", "&lt;tag&gt;", "&amp;lt;b&amp;gt;", "&amp;copy; means copyright", "&amp;#38;", "x=y", "中", "", "1", "a/b", "&quot;quoted&quot;"]
 BASE = "http://base.example/dir/page.html"
+import html.entities as _ents
+NAMED = sorted(_ents.name2codepoint)          # the 252 HTML 4 entity names, incl. those with digits (frac12, sup2, there4)
+WORDS = ["x", "a b", "café", "中", "100%", "q=1", "it's", "T", "b=2", "1/2 cup", "#top", "a,b;c", " ", "-", "E=mc", "AT"]
+REFLIKE = ["amp;", "lt;", "gt;", "copy;", "#38;", "#x26;", "frac12;", "quot;", "nbsp;", "#169;", "T", "b=2", " ", "there4;"]
+
+
+def gen_ref(rng):
+    """one well-formed reference: named (any HTML 4 name), decimal, hexadecimal, or an escaped ampersand followed by text that
+    itself looks like a reference (the authored value then CONTAINS reference-like text, e.g. AT&amp;amp;T says "AT&amp;T")"""
+    r = rng.random()
+    if r < 0.4:
+        return "&%s;" % rng.choice(NAMED)
+    if r < 0.55:
+        return "&#%d;" % rng.choice([38, 60, 62, 169, 8364, 233, 20013, 128512, 160, 189])
+    if r < 0.7:
+        return "&#x%s;" % rng.choice(["26", "3C", "e9", "20AC", "1F600", "bd", "A0"])
+    return "&amp;" + rng.choice(REFLIKE)
+
+
+def gen_value(rng):
+    if rng.random() < 0.45:
+        return rng.choice(VALS)
+    return "".join(gen_ref(rng) if rng.random() < 0.45 else rng.choice(WORDS) for _ in range(rng.randint(1, 4)))
+
+
+def gen_text(rng):
+    if rng.random() < 0.5:
+        return rng.choice(TEXTS)
+    return "".join(gen_ref(rng) if rng.random() < 0.45 else rng.choice(WORDS) for _ in range(rng.randint(1, 4)))
 
 
 def attr_str(rng, k, v):
@@ -41,7 +70,10 @@ def gen_safe_tree(rng, depth=0, family="html"):
         attrs_pool = sorted(a for a in REF_MATHML_A if a not in URI_ATTRS and a != "style" and not a.startswith("xmlns"))
     attrs = []
     for k in rng.sample(attrs_pool, rng.choice([0, 1, 1, 2, 3])):
-        v = rng.choice(VALS)
+        v = gen_value(rng)
+        if k in ("rel", "type"):
+            # rel / type values are lower-cased as authored, i.e. including the NAME of an entity reference (&hArr; -> &harr;): open finding, probed separately
+            v = rng.choice(["text/css", "Text/Plain", "a b", "x", "IMAGE/png", "caf&eacute;"])
         if rng.random() < 0.15:
             k = k.upper() if family == "html" else k
         attrs.append(attr_str(rng, k, v))
@@ -57,7 +89,7 @@ def gen_safe_tree(rng, depth=0, family="html"):
             if r < 0.5:
                 inner += gen_safe_tree(rng, depth + 1, family)
             else:
-                inner += rng.choice(TEXTS)
+                inner += gen_text(rng)
     return "<%s%s>%s</%s>" % (tag, a, inner, tag)
 
 
@@ -89,6 +121,9 @@ def _gen_safe_markup(rng):
 def gen_uri_markup(rng):
     t, a = rng.choice([p for p in RELURIS if p[0] in REF_ELEMS and p[1] in REF_ATTRS])
     ref = rng.choice(["rel/x", "../up", "/abs", "?q=1", "#frag", "http://other.example/p", "x y", "a&amp;b=1", "mailto:a@b.example"])
+    if rng.random() < 0.4:
+        # query strings whose authored value contains reference-like text / references
+        ref = rng.choice(["rel/x", "http://other.example/p", "/abs", ""]) + "?q=" + "".join(gen_ref(rng) if rng.random() < 0.6 else rng.choice(["AT", "x", "1", "=", "b"]) for _ in range(rng.randint(1, 3)))
     void = t in REF_VOID
     extra = gen_safe_tree(rng, 2)
     m = '<%s %s="%s"%s%s' % (t, a, ref, " title=\"t\"" if rng.random() < 0.5 else "", ">" if void else ">x</%s>" % t)
@@ -141,7 +176,7 @@ def token_stream(markup, base=None, resolved=False):
                 if kl in ("rel", "type"):
                     v = v.lower()
                 if base and (t.name, kl) in RELURIS and not resolved:
-                    v = rfc_resolve(base, v.strip())
+                    v = rfc_resolve(base, v.strip(" \t\n\r\f"))      # ASCII white space only: a no-break space is part of the URI
                 attrs.setdefault(kl, v)
             out.append(("start", t.name, tuple(sorted(attrs.items()))))
             if t.self_closing and t.name not in REF_VOID and t.name not in ("svg", "math") and False:
